@@ -162,5 +162,4 @@ func scratchDir() string {
 	return d
 }
 
-func cmdReplay(args []string)   { fmt.Println("not implemented"); os.Exit(2) }
 func cmdSelftest(args []string) { fmt.Println("not implemented"); os.Exit(2) }
